@@ -172,6 +172,7 @@ func (p *Pool) checkIdleConnsHealth() {
 			res.ReleaseUnused()
 		}
 	}
+	verifPoint("pool:health-pass")
 }
 
 func (p *Pool) checkMinConns() {
